@@ -520,7 +520,11 @@ class Real:
             attrs = self.pattrs(self.opt(opts, "a"), len(self.V))
             self.keep(ls, us, attrs)
             uid = self.opt(opts, "x")
-            v = cls(links=ls, universes=(us if self.keep_mode else iter(us)), attributes=attrs,
+            # `universes=` is any iterable: a one-shot generator, a list or a tuple in turn
+            # (a list in keep-mode, where the caller goes on to edit it)
+            kind = 1 if self.keep_mode else len(self.V) % 3
+            uarg = (u_ for u_ in us) if kind == 0 else us if kind == 1 else tuple(us)
+            v = cls(links=ls, universes=uarg, attributes=attrs,
                     uid=(int(uid) if uid else None))
             return "ok V%d" % self.reg_v(v)
         if op == "universe":
